@@ -1,12 +1,15 @@
 // Command c14race is the subprocess of the C14 check that is built with -race: it reads scenarios (JSON array on
 // stdin), runs each goroutine's renders alone (the sequential reference) and then all goroutines at once, and
-// prints both. The race detector's report goes to stderr and sets the exit status (GORACE exitcode).
+// prints both, one line per scenario as soon as the scenario is finished (so that the parent knows which scenario was
+// in progress when the process died or stalled). The race detector's report goes to stderr - after a line naming the
+// scenario - and sets the exit status (GORACE exitcode).
 package main
 
 import (
 	"encoding/json"
 	"fmt"
 	"os"
+	"runtime/debug"
 	"sync/atomic"
 	"time"
 
@@ -30,9 +33,12 @@ func main() {
 		os.Exit(3)
 	}
 	dev := templruntime.VerifC14DevMode()
-	var res []out
+	// an endless recursion of the code under test is a quick death, not gigabytes of stack
+	debug.SetMaxStack(256 << 20)
+	enc := json.NewEncoder(os.Stdout)
 	for i := range scs {
 		sc := &scs[i]
+		fmt.Fprintf(os.Stderr, "c14race: scenario %d\n", i)
 		probe.Setup(sc)
 		base := time.Now().Add(-10 * time.Second)
 		if dev {
@@ -54,10 +60,8 @@ func main() {
 		if dev && sc.Touch {
 			o.Touches = <-done
 		}
-		res = append(res, o)
-	}
-	enc := json.NewEncoder(os.Stdout)
-	if err := enc.Encode(res); err != nil {
-		os.Exit(3)
+		if err := enc.Encode(o); err != nil {
+			os.Exit(3)
+		}
 	}
 }
